@@ -139,53 +139,62 @@ Definition c08_select (a : list Z) : list Z :=
   end.
 
 (* the path side of load/store with a scripted oracle, on already decoded locations.
-   input : layout (0 solidity guard | 1 generic guard) :: sym :: nk :: orc[nk*nk] (row = the
-           loaded key's id, column = the stored key's id; 0 MustEq 1 MustNeq 2 Unknown) ::
-           ops...      op = 0 c1 c2 c3 key is_value val   (store)
-                          | 1 c1 c2 c3 key is_value       (load)
-   a key is modelled as 2*id + is_value
+   input : layout (0 solidity guard | 1 generic guard) :: sym :: n :: orc[n*n] :: ops...  (n ops)
+             orc row = index of the loading op, column = index of the storing op whose key it is
+             compared with; 0 MustEq 1 MustNeq 2 Unknown  (the answers Exec.check gave, so the
+             oracle may answer differently at different times)
+           op = 0 c1 c2 c3 key is_value val   (store)   | 1 c1 c2 c3 key is_value   (load)
+   a key is modelled as ((index of the op) * 1024 + id) * 2 + is_value
    output: per load its result  0 | 1 v | 3 c1 c2 c3 | 2 <array> id ; then -1 ; then ex.path, oldest
            axiom first:  10 n <array of the base> id v | 11 c1 c2 c3 id
            <array> = 0 c1 c2 c3 (initial array of the chunk) | 1 n 0 0 (array variable n) *)
+Definition key_id (k : Z) : Z := (k / 2) mod 1024.
+Definition key_op (k : Z) : Z := (k / 2) / 1024.
 Definition enc_aref (a : aref) : list Z :=
   match a with AEmpty (c1, c2, c3) => [0; c1; c2; c3] | AVar n => [1; Z.of_nat n; 0; 0] end.
 Definition enc_pres (r : pres Z Z) : list Z :=
   match r with
   | PZero => [0]
   | PVal v => [1; v]
-  | PSelect a k => 2 :: enc_aref a ++ [k / 2]
+  | PSelect a k => 2 :: enc_aref a ++ [key_id k]
   | PInit (c1, c2, c3) => [3; c1; c2; c3]
   end.
 Definition enc_axiom (ax : axiom Z Z) : list Z :=
   match ax with
-  | AxDef n base k v => 10 :: Z.of_nat n :: enc_aref base ++ [k / 2; v]
-  | AxEmpty (c1, c2, c3) k => [11; c1; c2; c3; k / 2]
+  | AxDef n base k v => 10 :: Z.of_nat n :: enc_aref base ++ [key_id k; v]
+  | AxEmpty (c1, c2, c3) k => [11; c1; c2; c3; key_id k]
   end.
 
-Fixpoint path_ops (fuel : nat) (a : list Z) : option (list (bool * chunkid * Z * Z)) :=
+Fixpoint path_ops (fuel : nat) (i : Z) (a : list Z) : option (list (bool * chunkid * Z * Z)) :=
   match fuel with
   | O => None
   | S f =>
     match a with
     | [] => Some []
     | 0 :: c1 :: c2 :: c3 :: k :: kv :: v :: r =>
-        match path_ops f r with Some os => Some ((true, (c1, c2, c3), 2 * k + kv, v) :: os) | None => None end
+        match path_ops f (i + 1) r with
+        | Some os => Some ((true, (c1, c2, c3), (i * 1024 + k) * 2 + kv, v) :: os)
+        | None => None
+        end
     | 1 :: c1 :: c2 :: c3 :: k :: kv :: r =>
-        match path_ops f r with Some os => Some ((false, (c1, c2, c3), 2 * k + kv, 0) :: os) | None => None end
+        match path_ops f (i + 1) r with
+        | Some os => Some ((false, (c1, c2, c3), (i * 1024 + k) * 2 + kv, 0) :: os)
+        | None => None
+        end
     | _ => None
     end
   end.
 
 Definition c08_pathrun (a : list Z) : list Z :=
   match a with
-  | layout :: sym :: nk :: r =>
-      let n := Z.to_nat nk in
+  | layout :: sym :: nops :: r =>
+      let n := Z.to_nat nops in
       let m := firstn (n * n) r in
       let orc (k k0 : Z) : tri :=
-        match nth (Z.to_nat ((k / 2) * nk + k0 / 2)) m 2 with 0 => MustEq | 1 => MustNeq | _ => Unknown end in
+        match nth (Z.to_nat (key_op k * nops + key_op k0)) m 2 with 0 => MustEq | 1 => MustNeq | _ => Unknown end in
       let kval (k : Z) : bool := negb (k mod 2 =? 0) in
       let emits := if layout =? 0 then sol_load_emits_empty else gen_load_emits_empty in
-      match path_ops 200 (skipn (n * n) r) with
+      match path_ops 200 0 (skipn (n * n) r) with
       | None => [-9]
       | Some os =>
           let step (acc : list Z * pstate Z Z) (o : bool * chunkid * Z * Z) :=
